@@ -46,6 +46,31 @@ Proof.
   rewrite E2. reflexivity.
 Qed.
 
+(* several objects handed back one after the other: the chain lists them most recently installed first, in front of the
+   chain as it was *)
+Lemma find_id_take i a : i <> a -> forall c, find_id i (take_id a c) = find_id i c.
+Proof.
+  intros Hne c. unfold find_id, take_id. induction c as [|p c IH]; [reflexivity|]. cbn [filter find].
+  destruct (Nat.eqb_spec (p_id p) a) as [Ea|Na]; cbn [negb].
+  - destruct (Nat.eqb_spec (p_id p) i) as [Ei|_]; [exfalso; apply Hne; rewrite <- Ei; exact Ea|exact IH].
+  - cbn [find]. destruct (Nat.eqb (p_id p) i); [reflexivity|exact IH].
+Qed.
+
+Lemma reinstall_order_gen l : forall rT, NoDup l -> (forall i, In i l -> exists p, find_id i (r_out (fst rT)) = Some p) ->
+  map p_id (r_chain (fst (tb_acts rT (map AReinstall l)))) = rev l ++ map p_id (r_chain (fst rT)).
+Proof.
+  induction l as [|a l IH]; intros rT Hnd Hin; [reflexivity|]. inversion Hnd as [|x xs Hna Hnd']; subst.
+  destruct (Hin a (or_introl eq_refl)) as [p Ef]. destruct (find_id_some _ _ _ Ef) as [_ Eid].
+  cbn [map]. change (tb_acts rT (AReinstall a :: map AReinstall l)) with (tb_acts (tb_step rT (AReinstall a)) (map AReinstall l)).
+  rewrite IH; [|exact Hnd'|].
+  - cbn [tb_step fst reg_act]. rewrite Ef. cbn [reg_set r_chain map rev]. rewrite Eid, <- app_assoc. reflexivity.
+  - intros i Hi. destruct (Hin i (or_intror Hi)) as [q Eq]. exists q. cbn [tb_step fst reg_act]. rewrite Ef. cbn [reg_set r_out].
+    rewrite find_id_take; [exact Eq|]. intro E. subst i. contradiction.
+Qed.
+Lemma reinstall_order l r T : NoDup l -> (forall i, In i l -> exists p, find_id i (r_out r) = Some p) ->
+  map p_id (r_chain (fst (tb_acts (r, T) (map AReinstall l)))) = rev l ++ map p_id (r_chain r).
+Proof. intros H1 H2. apply (reinstall_order_gen l (r, T) H1 H2). Qed.
+
 Lemma links_follow_registry l r T : wf r -> linked r -> acts_ok r l = true ->
   linked (fst (tb_acts (r, T) l)) /\ wf (fst (tb_acts (r, T) l)).
 Proof. intros Hw Hl Ho. split; [exact (linked_acts l r T Hw Hl Ho)|exact (wf_acts l (r, T) Hw)]. Qed.
@@ -112,6 +137,8 @@ Example ex_re_run_obs : run ex_re_run =
 Proof. vm_compute. reflexivity. Qed.
 
 Definition ex_reg (l : list act) : reg := fst (tb_acts (init_reg, []) l).
+Example ex_reinstall_order : map p_id (r_chain (ex_reg ([AInstall 1%N KPlain; AInstall 2%N KPlain; AInstall 3%N KPlain; AReset] ++ map AReinstall [1; 2; 0]))) = [0; 2; 1].
+Proof. vm_compute. reflexivity. Qed.
 Example ex_reinstall_hyp : find_id 1 (r_out (ex_reg [AInstall 1%N KPlain; AInstall 2%N KPlain; AInstall 3%N KPlain; ARemove 2%N])) = Some (mkp 1 2%N KPlain RRec).
 Proof. vm_compute. reflexivity. Qed.
 Example ex_wf_linked : wf (ex_reg [AInstall 1%N KPlain; AInstall 2%N KPlain; ARemove 1%N; AReinstall 0]) /\
